@@ -403,7 +403,7 @@ pub fn valid_cfg(rng: &mut Rng, world: &World, nm: usize, j: usize, ixlen: usize
     }
 }
 
-fn rand_data(rng: &mut Rng) -> Vec<u8> { let n = match rng.below(8) { 0 => 0, 1 => 32, 2 => 33, 3 => rng.range(250, 300) as usize, 4 => *rng.pick(&[254usize, 255, 256, 257, 287, 288]), _ => rng.below(81) as usize }; rng.bytes(n) }
+fn rand_data(rng: &mut Rng) -> Vec<u8> { let n = match rng.below(9) { 0 => 0, 1 => 32, 2 => 33, 3 => rng.range(250, 300) as usize, 4 => *rng.pick(&[254usize, 255, 256, 257, 287, 288]), 5 => *rng.pick(&[509usize, 510, 511, 512, 520]), _ => rng.below(81) as usize }; rng.bytes(n) }
 
 pub fn generate_c05(tier: &str, rng: &mut Rng) -> Vec<String> {
     let mut v = vec![];
